@@ -502,7 +502,7 @@ def run(ctx):
         "valid_timely_wrapper_forwarded", "late_wrapper_dropped", "unauthentic_wrapper_dropped", "tn_authentic", "tn_unauthentic",
         "timer_moved_by_tn", "timer_moved_by_wrapper", "malformed_injected", "tx_wrappers", "tx_timer_notifies", "synchronised_as_timekeeper", "synchronised_as_follower", "sends",
     )
-    n = ctx.scale(700, 12000)
+    n = ctx.scale(700, 200000)
     for i in range(n):
         spec = gen_spec(ctx.rng, i)
         if not ctx.mine(i):
